@@ -135,7 +135,8 @@ pub fn gen_ops(rng: &mut Rng, keys: &[Vec<u8>], n: usize, read_share: u64) -> Ve
             } else if roll < read_share + (100 - read_share) * 8 / 10 {
                 COp::Delete(k)
             } else {
-                let n = rng.range(2, 5);
+                // one batch in ten has no operations at all (a legal call that must still take its turn in the writer queue)
+                let n = if rng.chance(0.1) { 0 } else { rng.range(2, 5) };
                 COp::Batch((0..n).map(|_| (rng.pick(keys).clone(), rng.chance(0.75))).collect())
             }
         })
